@@ -381,12 +381,21 @@ class Context:
         if isinstance(typ, str):
             typ = self.scope[typ]
 
-        # Find the type:
-        if isinstance(typ, ast.DefinedType):
-            if reveil_defined:
-                typ = self.get_type(typ.typ)
-        elif isinstance(typ, (ast.Identifier, ast.Member)):
-            typ = self.get_type(self.resolve_symbol(typ), reveil_defined)
+        # Find the type, follow names and definitions:
+        defined_types = []
+        while True:
+            if isinstance(typ, ast.DefinedType) and reveil_defined:
+                if typ in defined_types:
+                    names = ", ".join(t.name for t in defined_types)
+                    raise SemanticError(
+                        f"Type definition loop involving: {names}", typ.loc
+                    )
+                defined_types.append(typ)
+                typ = typ.typ
+            elif isinstance(typ, (ast.Identifier, ast.Member)):
+                typ = self.resolve_symbol(typ)
+            else:
+                break
 
         assert isinstance(typ, ast.Type)
         return typ
